@@ -1061,6 +1061,51 @@ fn wants_agree_scaled(a: &Want, b: &Want, scale: f64) -> Option<bool> {
     }
 }
 
+thread_local! {
+    static LONG_CTX: std::cell::RefCell<Option<Context>> = const { std::cell::RefCell::new(None) };
+}
+
+/// A context for one case: new, or the thread's long-lived one after
+/// `clear()` (handed back when the lease is dropped)
+struct CtxLease {
+    ctx: Context,
+    long: bool,
+}
+
+impl CtxLease {
+    fn take(long: bool) -> Self {
+        if long {
+            let mut ctx = LONG_CTX.with(|c| c.borrow_mut().take()).unwrap_or_default();
+            ctx.clear();
+            CtxLease { ctx, long }
+        } else {
+            CtxLease { ctx: Context::new(), long }
+        }
+    }
+}
+
+impl Drop for CtxLease {
+    fn drop(&mut self) {
+        if self.long {
+            let ctx = std::mem::take(&mut self.ctx);
+            LONG_CTX.with(|c| *c.borrow_mut() = Some(ctx));
+        }
+    }
+}
+
+impl std::ops::Deref for CtxLease {
+    type Target = Context;
+    fn deref(&self) -> &Context {
+        &self.ctx
+    }
+}
+
+impl std::ops::DerefMut for CtxLease {
+    fn deref_mut(&mut self) -> &mut Context {
+        &mut self.ctx
+    }
+}
+
 ////////////////////////////////////////////////////////////////////////////////
 // Generator
 
@@ -1755,7 +1800,13 @@ impl Prop for C13 {
         if max_chain >= 2 {
             st.inc("builder_flatten_observed_cases");
         }
-        let mut ctx = Context::new();
+        // three cases in ten import into a context that lives for the whole
+        // run of the worker thread and is cleared between cases (node
+        // handles restart after a clear; the same matrices and frames recur)
+        let mut ctx = CtxLease::take(rng.chance(0.3));
+        if ctx.long {
+            st.inc("cases_imported_into_a_cleared_long_lived_context");
+        }
         let node = match guarded(|| ctx.import(&tree)) {
             Ok(n) => n,
             Err(pi) => {
